@@ -3,6 +3,7 @@ package c06
 
 import (
 	"bytes"
+	"context"
 	"encoding/json"
 	"fmt"
 	"hash/fnv"
@@ -78,6 +79,11 @@ func callErr(c *vrt.Ctx, where string, in string, f func() error) (accepted bool
 			// a recover wrapper turned a runtime fault into the error result: counted (DESIGN C06 Z);
 			// the Must* form of the same call is checked for the fault itself
 			c.Class("runtime-fault-via-wrapper:" + where)
+			if where == "asm.Plan.Execute" {
+				// a plan is text a user writes: a wrong argument is answered with an error that says
+				// so, not with the text of a runtime fault that a recover turned into an error
+				c.Fail("runtime-fault-as-error", where, fmt.Sprintf("%s on %s", msg, in), faultTag(msg))
+			}
 		}
 		return false
 	}
@@ -194,9 +200,19 @@ func runDeep(cs Case, c *vrt.Ctx) {
 	}
 	c.NonTrivial()
 	c.Sample(map[string]any{"target": "deep", "shape": cs.Shape, "n": cs.Deep})
-	cmd := exec.Command(os.Args[0], "-test.run=^$")
+	// the child gets ten minutes (the chain of 50 000 operators takes 16 s of CPU on an idle
+	// machine - the precedence correction is quadratic - and several times that when the machine
+	// is busy; the thorough tier met the 30 s watchdog that way, which was no hang)
+	vrt.Extend(10 * time.Minute)
+	ctx, cancel := context.WithTimeout(context.Background(), 10*time.Minute)
+	defer cancel()
+	cmd := exec.CommandContext(ctx, os.Args[0], "-test.run=^$")
 	cmd.Env = append(os.Environ(), "VERIF_C06_DEEP_SHAPE="+cs.Shape, "VERIF_C06_DEEP_N="+strconv.Itoa(cs.Deep))
 	out, err := cmd.CombinedOutput()
+	if ctx.Err() != nil {
+		c.Fail("hang", "jp.ParseString / jp.NewScript", fmt.Sprintf("%d x %q (%s): the child process did not finish within ten minutes", cs.Deep, unit, cs.Shape))
+		return
+	}
 	if err != nil || !bytes.Contains(out, []byte("deep child done")) {
 		msg := string(out)
 		if i := strings.Index(msg, "fatal error"); i >= 0 {
